@@ -38,7 +38,10 @@ PL7 == {P3(Bt(c11, <<A1, B2>>), Bt(c11, <<B2, A1>>), Q(c11, A1))}
 E4 == {"e1", "e2", "e3", "e4"}
 PT4 == {[e \in E4 |-> IF e = "e3" THEN Q(c11, B2) ELSE Q(c11, A1)]}
 PS3 == {P2(Bt(c11, <<A1, B2>>), Q(c11, A1))}
+PlansQuick == PL2 \cup PL4
+PS4 == {P2(Bt(c11, <<A1, B2>>), Bt(c11, <<B2, A1>>))}
 PlansSmall == {P2(Q(c11, A1), Q(c11, A1)), P2(Q(c11, A1), Q(c11, B2)), P2(Bt(c11, <<A1, B2>>), Q(c11, A1))}
+PlansSmall4 == PlansSmall \cup PS4
 
 \* Partial-order reduction for the larger instances: SendPrepare, WaiterWake, CheckArity and
 \* SendExecute touch only the flight's / executor's own record (and monotone counters) and commute with
